@@ -43,10 +43,10 @@ def _alarm_handler(signum, frame):
 class Case:
     """One whole assembly: ISA definition, source files, command-line options."""
     __slots__ = ('isa', 'files', 'main', 'start', 'end', 'fill', 'pretty', 'incdirs', 'defines',
-                 'binary', 'preseed', 'tag', 'isa_yaml', 'isa_file')
+                 'binary', 'preseed', 'tag', 'isa_yaml', 'isa_file', 'verbose')
 
     def __init__(self, isa, files, main='main.asm', start=0, end=None, fill=0, pretty=None,
-                 incdirs=(), defines=(), binary=True, preseed=False, tag=None, isa_yaml=False, isa_file=None):
+                 incdirs=(), defines=(), binary=True, preseed=False, tag=None, isa_yaml=False, isa_file=None, verbose=0):
         self.isa = isa
         self.files = files if isinstance(files, dict) else {main: files}
         self.main = main
@@ -61,20 +61,21 @@ class Case:
         self.tag = tag
         self.isa_yaml = isa_yaml
         self.isa_file = isa_file          # base name of the definition file (default isa.json / isa.yaml)
+        self.verbose = verbose            # number of -v flags
 
     def to_json(self):
         return {
             'isa': self.isa, 'files': self.files, 'main': self.main, 'start': self.start,
             'end': self.end, 'fill': self.fill, 'pretty': self.pretty, 'incdirs': list(self.incdirs),
             'defines': list(self.defines), 'binary': self.binary, 'preseed': self.preseed,
-            'tag': self.tag, 'isa_yaml': self.isa_yaml, 'isa_file': self.isa_file,
+            'tag': self.tag, 'isa_yaml': self.isa_yaml, 'isa_file': self.isa_file, 'verbose': self.verbose,
         }
 
     @classmethod
     def from_json(cls, d):
         return cls(d['isa'], d['files'], d.get('main', 'main.asm'), d.get('start', 0), d.get('end'),
                    d.get('fill', 0), d.get('pretty'), d.get('incdirs', ()), d.get('defines', ()),
-                   d.get('binary', True), d.get('preseed', False), d.get('tag'), d.get('isa_yaml', False), d.get('isa_file'))
+                   d.get('binary', True), d.get('preseed', False), d.get('tag'), d.get('isa_yaml', False), d.get('isa_file'), d.get('verbose', 0))
 
 
 class Outcome:
@@ -364,7 +365,7 @@ def run_inproc(case: Case, timeout: float = 10.0, tracer=None) -> Outcome:
                 binary_max_address=-1 if case.end is None else case.end,
                 binary_fill=case.fill,
                 pretty_print=bool(case.pretty), pretty_print_format=case.pretty or 'listing',
-                pretty_print_output=pp, verbose=0, include_path=incs, macro_symbol=case.defines,
+                pretty_print_output=pp, verbose=case.verbose, include_path=incs, macro_symbol=case.defines,
             )
         finally:
             if tracer is not None:
@@ -405,6 +406,8 @@ def cli_argv(case: Case, work, asm, cfg, out, pp):
         argv += ['-I', d[1:] if d.startswith('=') else os.path.join(work, d)]
     for s in case.defines:
         argv += ['-D', s]
+    if case.verbose:
+        argv.append('-' + 'v' * case.verbose)
     return argv
 
 
